@@ -496,6 +496,16 @@ def capture_pairing(ctx, cfg, fs):
     ssw = [s_ for s_ in bsw if only_via_edge(b, tsw[0].b, start_t, s_.b)]; esw = [s_ for s_ in bsw if only_via_edge(b, tsw[0].b, end_t, s_.b)]
     if not ssw or not esw:
         raise Broken('render_roff: start/end arms not found')
+    # bool locals that are set to a constant inside the token loop and read by the Text arm: candidates for the flag
+    loop_blocks = reachable_edges(b, nx[0].target) if nx[0].target is not None else set()
+    flag_locals = set()
+    for i, k, st in b.stmts():
+        if i in loop_blocks and st['k'] == 'assign' and not st['lhs'][1] and st['lhs'][0] in b.local_names and b.local_ty(st['lhs'][0]) == 'bool' \
+                and st['rv']['k'] == 'use' and isinstance((op_const(st['rv']['op']) or {}).get('v'), bool):
+            l = st['lhs'][0]
+            # declared outside the loop (its first definition dominates the loop header)
+            if any(d[0] not in loop_blocks for d in b.whole_defs(l)):
+                flag_locals.add(l)
     def table(sw_, entry):
         tab = {}
         for V in fs.variants('buffer::Block'):
@@ -504,8 +514,12 @@ def capture_pairing(ctx, cfg, fs):
             for pth in w.run(entry, {}):
                 if pth.end != 'stop':
                     continue
-                flag = [v for (_, pl, v) in pth.writes if v is not UNKNOWN and v[0] == 'c' and isinstance(v[1], bool)]
-                places = {pl for (_, pl, v) in pth.writes if v is not UNKNOWN and v[0] == 'c' and isinstance(v[1], bool)}
+                # the capture flag is a bool that lives across tokens: a field of a local or a bool local of its own
+                ev = [(blk, pl, v) for (blk, pl, v) in pth.writes if v is not UNKNOWN and v[0] == 'c' and isinstance(v[1], bool)]
+                ev += [(blk, b.name_of(l), v) for (blk, l, v) in pth.assigns if v is not UNKNOWN and v[0] == 'c' and isinstance(v[1], bool) and b.local_ty(l) == 'bool' and l in flag_locals]
+                ev.sort(key=lambda e: pth.blocks.index(e[0]) if e[0] in pth.blocks else 0)
+                flag = [v for (_, pl, v) in ev]
+                places = {pl for (_, pl, v) in ev}
                 rows.append((flag[-1][1] if flag else None, tuple(sorted(places)), tuple(c.name.split('::')[-1] for (_, c) in pth.calls if c.is_(r'roff::Roff::control$', r'String::clear$'))))
             tab[V] = rows
         return tab
